@@ -85,13 +85,13 @@ def targets():
     ]
 
 
-STAGES = [['C17_linear.v', 'C17_aer.v'], ['C17_geo.v'], ['C17.v']]
+STAGES = [['C17_linear.v', 'C17_aer.v'], ['C17_geo.v'], ['C17_conv.v'], ['C17.v']]
 
 LEVEL_TEXT = ("Coq theorems over the regenerated frames.py: ECEF<->ENU, ENU<->DCA, NED<->ENU, ENU->AER->ENU are exact inverses for all reals, "
               "ECEF->ENU is an isometry sending the origin to 0, the LLF matrices are SO(3) transposes; for geodetic<->ECEF the unrolled "
-              "trace of ecef2geodetic is proved equal to the hand model, the true latitude is a fixed point of the loop body, height and "
-              "longitude are recovered there, and the round trip through the code is exact on the ellipsoid; convergence of the loop is "
-              "explored by the search oracle only")
+              "trace of ecef2geodetic is proved equal to the hand model, the loop body is proved to be a global contraction (explicit factor) "
+              "towards the geodetic latitude, and every exit of the loop is proved to return the latitude within 1e-8/74 rad (Earth-like "
+              "ellipsoids, -a/100 <= h <= a/6), the exact longitude, and a height within an explicit bound; |lat| = 90 exactly is search-only")
 TECHNIQUE = "pysym regeneration (loop unrolled through the public entry point) + hand model proved equal to it + Coq Reals proofs + numeric search"
 RULE = ("geodetic points: cross product of named thin regions (poles exactly, 1e-6 deg from them, equator band |lat| < 1e-6 deg, both hemispheres; "
         "longitudes +-180, +-90, 0, all four quadrants; heights -10 km, 0, 1000 km) then uniform draws; offsets up to 1e6 m in every octant; "
@@ -102,9 +102,10 @@ TRUSTED = ["Coq 8.16.1 kernel; vm_compute for the float copies",
            "hand model coq/model/C17_geodetic.v (proved equal to the regenerated unrolled trace, theorem C17_unrolled_is_model)",
            "stdlib real-number axioms (sig_forall_dec, sig_not_dec, functional_extensionality_dep, classic)",
            "real arithmetic stands for binary64 (measured by correspondence and search)"]
-PARTIAL = ("geodetic->ECEF->geodetic: proved = fixed point of the loop body, height and longitude at the fixed point, exact round trip for h = 0, "
-           "longitude for every h; NOT proved = convergence of the tolerance-terminated loop to the fixed point (contraction), and height/longitude "
-           "exactly at the poles where the real model is 0/0 while binary64 works (search oracle covers both, tolerances 2e-8 deg / 1e-10 deg / 1e-5 m)")
+PARTIAL = ("geodetic->ECEF->geodetic is proved with explicit error bounds for |lat| < 90 deg (latitude within delta*q/(1-q), exact longitude, "
+           "height within M*eps/(cos(lat)-eps) + Lip*(delta+eps)); NOT proved: the values exactly at the poles, where the real model is 0/0 "
+           "(the limit along the meridian is proved, the binary64 behaviour is covered by the search oracle), and paths needing more than "
+           "5 loop iterations (the unrolled trace raises there; at most 3 are observed on the property's domain)")
 
 # tolerances of the geodetic round trip, calibrated on the pinned tree (+ C17-ecef2geodetic-equator.patch), 4e5 samples:
 # worst latitude error 3.9e-9 deg (= delta * k/(1-k), k ~ e^2: the loop stops 1e-8 rad before its limit), worst longitude
